@@ -256,6 +256,7 @@ def corpus_cases(cases):
     cases.add("corpus:D6_offset", S({"hdr": hdr(nv=4, ne=2), "chunks": [vert(0, 4), topo(1, 0, 2, 2, 1, [0, 1, 1, 2], offset=1), eof()]}), expect="same", base=base)
 
 def optional_ascii(ctx, pid):
+    if os.environ.get("VERIF_OVMB_ONLY"): return      # development aid: binary half only
     try:
         import checks_ascii
     except ImportError:
